@@ -247,7 +247,19 @@ def explore_pair(case):
             "reps": [], "outcome": ["pair-consistent" if not viol else "instances-share-state"]}
 
 
+def explore_tlc(case):
+    from .. import tlc_conf  # noqa: PLC0415
+
+    r = tlc_conf.conformance(tuple(case["config"]))
+    t = r["tlc"]
+    return {"violations": r["violations"], "tlc": t, "reps": [], "outcome": ["model-conformant" if not r["violations"] else "model-divergence"],
+            "stats": {"states": t["model_states"], "transitions": t["model_edges"], "depth_reached": 3,
+                      "frontier_closed_before_bound": True}}
+
+
 def explore_any(case):
+    if case.get("tlc"):
+        return explore_tlc(case)
     return explore_pair(case) if "configs" in case else explore_config(case)
 
 
@@ -257,6 +269,7 @@ def run(ctx):
     pd = 5 if ctx.thorough else 4
     cs += [{"configs": [list(CONFIGS[0]), list(CONFIGS[0])], "depth": pd},
            {"configs": [list(CONFIGS[0]), list(CONFIGS[2])], "depth": pd}]
+    cs += [{"tlc": True, "config": list(CONFIGS[0])}, {"tlc": True, "config": list(CONFIGS[1])}]
     res = ctx.pmap(explore_any, cs, chunksize=1)
     per = [{"config": c.get("config") or c["configs"], **r["stats"]} for c, r in zip(cs, res) if "stats" in r]
     st = sum(p["states"] for p in per)
@@ -268,6 +281,7 @@ def run(ctx):
         "samples": samples_of(reps), "depth_bound": depth, "per_config": per,
         "alphabet": {c[0]: alphabet(c[0]) for c in CONFIGS},
         "closed": all(p["frontier_closed_before_bound"] for p in per),
+        "tlc_model": [r["tlc"] for r in res if "tlc" in r],
         "explanation": "every trace is executed on the real reservoir object; 'closed' = the reachable state "
                        "graph emptied the frontier before the depth bound, i.e. the exploration is complete for "
                        "this alphabet at any depth; setF/setP reassign public fields on the live object and the "
@@ -280,6 +294,8 @@ def run(ctx):
 
 
 def replay(case):
+    if "model_edge" in case:
+        return explore_tlc({"config": case["config"]})["violations"]
     if "pair_history" in case:
         r = explore_pair({"configs": case["configs"], "depth": len(case["pair_history"])})
         return [v for v in r["violations"]]
